@@ -2,10 +2,17 @@ package big
 
 // Rec is used for the "big" workloads (one page of thousands of records, or hundreds of row groups):
 // a required and an optional string, an int64, a list and a required bool keep page bodies beyond 32/64 KiB cheap to produce.
+// Elem gives the fixture a column with 2-bit definition levels (g.v: repeated group, optional leaf).
+type Elem struct {
+	K int32  `parquet:"k"`
+	V *int32 `parquet:"v"`
+}
+
 type Rec struct {
 	ID int64   `parquet:"id"`
 	S  string  `parquet:"s"`
 	O  *string `parquet:"o"`
 	L  []int64 `parquet:"l"`
 	B  bool    `parquet:"b"`
+	G  []Elem  `parquet:"g"`
 }
